@@ -192,9 +192,12 @@ def normalise(fi: FuncInfo) -> FuncInfo:
     for st in q.walk_body(node):
         if isinstance(st, ast.stmt):
             assigned |= {p[:-2] if p.endswith("[]") else p for p in q.assigned_paths(st) if not p.endswith("[]")}
+    outer_scope = {nm for st in q.walk_body(node) if isinstance(st, (ast.Global, ast.Nonlocal)) for nm in st.names}
     for st in q.walk_body(node):
         if isinstance(st, ast.Assign) and len(st.targets) == 1 and isinstance(st.targets[0], ast.Name):
             name = st.targets[0].id
+            if name in outer_scope:
+                continue   # a write to a global / closure variable is an effect, not an alias
             d = q.dotted(st.value) if isinstance(st.value, (ast.Attribute, ast.Name)) else None
             if d is None or unique_def(tmp, name) is None:
                 continue
@@ -354,3 +357,281 @@ def widen_facts(fi: FuncInfo, facts, max_variants: int = 24) -> Set[Tuple[str, b
                     work.append(c)
                     produced += 1
     return out
+
+
+# ---------------------------------------------------------------------------
+# function splitting: inline private helpers
+
+
+def _own_returns(fn) -> List[ast.Return]:
+    return [n for n in q.walk_body(fn) if isinstance(n, ast.Return)]
+
+
+def _is_generator(fn) -> bool:
+    return any(isinstance(n, (ast.Yield, ast.YieldFrom)) for n in q.walk_body(fn))
+
+
+class _ReplaceNode(ast.NodeTransformer):
+    def __init__(self, target, new):
+        self.target = target
+        self.new = new
+
+    def visit(self, node):
+        if node is self.target:
+            return self.new
+        return super().visit(node)
+
+
+def inline_private(repo: Repo, fi: FuncInfo, keep=(), depth: int = 3) -> FuncInfo:
+    """Undo *function splitting*: a copy of ``fi`` in which calls of private helpers (underscore-named, same module or
+    class, not recursive, not generators, not named in ``keep``) are replaced by the helper's body with the parameters
+    substituted.  Supported positions: a call statement (helper without value-returning ``return`` except as its last
+    statement) and a call inside the expressions of a simple statement / ``if`` test / ``for`` iterable / ``return``
+    (helper whose only ``return`` is its last statement).  ``await helper(..)`` of an async helper is handled alike.
+    Everything else is left untouched (the rules then see a call they may or may not model)."""
+    keep = set(keep)
+    node = copy.deepcopy(fi.node)
+    cur = FuncInfo(fi.module, fi.qualname, node, fi.cls, fi.parent)
+    counter = [0]
+
+    def candidate(call: ast.Call, awaited: bool):
+        if not isinstance(call, ast.Call):
+            return None
+        h = callee(repo, cur, call)
+        if h is None or h.node is fi.node or h.name == fi.name:
+            return None
+        nm = h.name
+        if not nm.startswith("_") or (nm.startswith("__") and nm.endswith("__")) or nm in keep:
+            return None
+        if _is_generator(h.node):
+            return None
+        if isinstance(h.node, ast.AsyncFunctionDef) != awaited:
+            return None
+        decs = [q.dotted(d) for d in h.node.decorator_list]
+        if any(d not in ("staticmethod", "classmethod") for d in decs):
+            return None
+        a = h.node.args
+        if a.vararg or a.kwarg:
+            return None
+        mp = arg_map(h, call)
+        if mp is None:
+            return None
+        params = [x.arg for x in a.posonlyargs + a.args + a.kwonlyargs]
+        if h.cls is not None and "staticmethod" not in decs and params and params[0] in ("self", "cls"):
+            params = params[1:]
+        defaults = dict(zip(reversed([x.arg for x in a.posonlyargs + a.args]), reversed(a.defaults)))
+        for p_, d_ in zip(a.kwonlyargs, a.kw_defaults):
+            if d_ is not None:
+                defaults[p_.arg] = d_
+        for p_ in params:
+            if p_ not in mp:
+                if p_ in defaults:
+                    mp[p_] = defaults[p_]
+                else:
+                    return None
+        if set(mp) - set(params):
+            return None
+        # the helper must not call itself
+        if any(isinstance(c, ast.Call) and q.call_attr(c) == nm for c in ast.walk(h.node)):
+            return None
+        return h, mp
+
+    def instantiate(h: FuncInfo, mp: Dict[str, ast.AST], caller_locals: Set[str], keep_returns: bool = False):
+        """(prelude+body statements without the trailing return, returned expression or None); with ``keep_returns``
+        the body is returned whole (its ``return`` statements become the caller's)."""
+        body = [copy.deepcopy(st) for st in h.node.body]
+        if body and isinstance(body[0], ast.Expr) and isinstance(body[0].value, ast.Constant) and isinstance(body[0].value.value, str):
+            body = body[1:]
+        ret_expr = None
+        if not keep_returns and body and isinstance(body[-1], ast.Return):
+            ret_expr = body[-1].value
+            body = body[:-1]
+        hl = q.local_names(h.node)
+        assigned = set()
+        for st in q.walk_body(h.node):
+            if isinstance(st, ast.Name) and isinstance(st.ctx, (ast.Store, ast.Del)):
+                assigned.add(st.id)
+        counter[0] += 1
+        subst: Dict[str, ast.AST] = {}
+        prelude: List[ast.stmt] = []
+        rename: Dict[str, str] = {}
+        for p_, arg in mp.items():
+            simple = isinstance(arg, (ast.Name, ast.Constant)) or (isinstance(arg, ast.Attribute) and q.dotted(arg) is not None)
+            if simple and p_ not in assigned:
+                subst[p_] = arg
+            else:
+                new = p_ if p_ not in caller_locals else "%s__%d" % (p_, counter[0])
+                rename[p_] = new
+                prelude.append(ast.Assign(targets=[ast.Name(id=new, ctx=ast.Store())], value=copy.deepcopy(arg)))
+        for l in hl:
+            if l in mp or l in ("self", "cls"):
+                continue
+            if l in caller_locals:
+                rename[l] = "%s__%d" % (l, counter[0])
+
+        class R(ast.NodeTransformer):
+            def visit_Name(self, n):
+                if n.id in subst and isinstance(n.ctx, ast.Load):
+                    return copy.deepcopy(subst[n.id])
+                if n.id in rename:
+                    return ast.copy_location(ast.Name(id=rename[n.id], ctx=n.ctx), n)
+                return n
+
+            def visit_ExceptHandler(self, n):
+                if n.name in rename:
+                    n.name = rename[n.name]
+                return self.generic_visit(n)
+
+        body = [R().visit(st) for st in body]
+        if ret_expr is not None:
+            ret_expr = R().visit(ret_expr)
+        if h.cls is not None and isinstance(mp, dict):
+            pass
+        return prelude + body, ret_expr
+
+    def own_exprs(st: ast.stmt) -> List[ast.AST]:
+        """Expression roots evaluated once, before/at the statement (not its nested blocks)."""
+        if isinstance(st, (ast.Assign, ast.AnnAssign, ast.AugAssign, ast.Return, ast.Expr)):
+            return [st.value] if st.value is not None else []
+        if isinstance(st, ast.If):
+            return [st.test]
+        if isinstance(st, (ast.For, ast.AsyncFor)):
+            return [st.iter]
+        if isinstance(st, ast.Raise):
+            return [x for x in (st.exc, st.cause) if x is not None]
+        if isinstance(st, ast.Assert):
+            return [st.test]
+        return []
+
+    def first_candidate(st: ast.stmt):
+        for root in own_exprs(st):
+            for n in q.walk_local(root):
+                if isinstance(n, ast.Await) and isinstance(n.value, ast.Call):
+                    c = candidate(n.value, True)
+                    if c:
+                        return n, c
+                if isinstance(n, ast.Call):
+                    c = candidate(n, False)
+                    if c:
+                        return n, c
+                if isinstance(n, (ast.BoolOp, ast.IfExp, ast.Lambda, ast.ListComp, ast.SetComp, ast.DictComp, ast.GeneratorExp)) and n is not root:
+                    # conditional evaluation: hoisting a call out of it would change when it runs
+                    pass
+        return None
+
+    def conditional_position(st: ast.stmt, target: ast.AST) -> bool:
+        pm = q.parent_map(st)
+        child = target
+        for a in q.ancestors(pm, target):
+            if isinstance(a, ast.BoolOp) and a.values and a.values[0] is not child:
+                return True
+            if isinstance(a, ast.IfExp) and child is not a.test:
+                return True
+            if isinstance(a, (ast.Lambda, ast.ListComp, ast.SetComp, ast.DictComp, ast.GeneratorExp)):
+                return True
+            child = a
+        return False
+
+    def process(stmts: List[ast.stmt], budget: int, tail: bool = False) -> List[ast.stmt]:
+        out: List[ast.stmt] = []
+        for si, st in enumerate(stmts):
+            is_tail = tail and si == len(stmts) - 1
+            for fld in ("body", "orelse", "finalbody"):
+                sub = getattr(st, fld, None)
+                if isinstance(sub, list) and sub and isinstance(sub[0], ast.stmt) and not isinstance(st, (ast.FunctionDef, ast.AsyncFunctionDef, ast.ClassDef)):
+                    setattr(st, fld, process(sub, budget, is_tail and isinstance(st, ast.If) and fld in ("body", "orelse")))
+            if isinstance(st, ast.Try):
+                for h_ in st.handlers:
+                    h_.body = process(h_.body, budget)
+            done = False
+            if budget > 0 and not isinstance(st, (ast.FunctionDef, ast.AsyncFunctionDef, ast.ClassDef)):
+                fc = first_candidate(st)
+                if fc is not None and not conditional_position(st, fc[0]):
+                    target, (h, mp) = fc
+                    rets = _own_returns(h.node)
+                    last = h.node.body[-1] if h.node.body else None
+                    caller_locals = q.local_names(node) | set(fi.params())
+                    # names that exist in the caller only as the targets of this very statement may be shared with the helper
+                    own_targets = {x.id for x in ast.walk(st) if isinstance(x, ast.Name) and isinstance(x.ctx, ast.Store)} if isinstance(st, (ast.Assign, ast.AnnAssign)) else set()
+                    for nm_ in own_targets:
+                        stores = [x for x in ast.walk(node) if isinstance(x, ast.Name) and x.id == nm_ and isinstance(x.ctx, (ast.Store, ast.Del))]
+                        inside = [x for x in ast.walk(st) if isinstance(x, ast.Name) and x.id == nm_ and isinstance(x.ctx, ast.Store)]
+                        if len(stores) == len(inside) and nm_ not in fi.params():
+                            caller_locals = caller_locals - {nm_}
+                    stmt_pos = isinstance(st, ast.Expr) and st.value is target
+                    ret_pos = isinstance(st, ast.Return) and st.value is target
+                    if ret_pos or (stmt_pos and is_tail and rets and all(r.value is None or q.is_const(r.value, None) for r in rets)):
+                        # `return h(..)` / a call that ends the function: the helper's returns are the caller's returns
+                        body, _ret = instantiate(h, mp, caller_locals, keep_returns=True)
+                        if ret_pos and not (body and isinstance(body[-1], (ast.Return, ast.Raise))):
+                            body.append(ast.Return(value=ast.Constant(value=None)))
+                        new = body or [ast.Pass()]
+                        for x in new:
+                            ast.copy_location(x, st)
+                            ast.fix_missing_locations(x)
+                        out.extend(process(new, budget - 1, is_tail))
+                        done = True
+                    elif stmt_pos and (not rets or (len(rets) == 1 and rets[0] is last)):
+                        body, _ret = instantiate(h, mp, caller_locals)
+                        new = body or [ast.Pass()]
+                        for x in new:
+                            ast.copy_location(x, st)
+                            ast.fix_missing_locations(x)
+                        out.extend(process(new, budget - 1))
+                        done = True
+                    elif not stmt_pos and len(rets) == 1 and rets[0] is last and rets[0].value is not None:
+                        body, ret = instantiate(h, mp, caller_locals)
+                        simple_ret = isinstance(ret, (ast.Name, ast.Constant)) or (isinstance(ret, ast.Attribute) and q.dotted(ret) is not None) or (isinstance(ret, ast.Tuple) and all(isinstance(x, (ast.Name, ast.Constant)) for x in ret.elts))
+                        if simple_ret:
+                            st2 = _ReplaceNode(target, ret).visit(st)
+                            new = body
+                        else:
+                            tmp = "_%s_result__%d" % (h.name.strip("_"), counter[0])
+                            bind = ast.Assign(targets=[ast.Name(id=tmp, ctx=ast.Store())], value=ret)
+                            st2 = _ReplaceNode(target, ast.Name(id=tmp, ctx=ast.Load())).visit(st)
+                            new = body + [bind]
+                        for x in new:
+                            ast.copy_location(x, st)
+                            ast.fix_missing_locations(x)
+                        ast.fix_missing_locations(st2)
+                        out.extend(process(new, budget - 1))
+                        out.extend(process([st2], budget - 1))
+                        done = True
+            if not done:
+                out.append(st)
+        return out
+
+    node.body = process(node.body, depth, True)
+    ast.fix_missing_locations(node)
+    return FuncInfo(fi.module, fi.qualname, node, fi.cls, fi.parent)
+
+
+def prepared(repo: Repo, fi: FuncInfo, keep=(), depth: int = 3) -> FuncInfo:
+    """inline_private + normalise: the form on which the g2 rules run."""
+    return normalise(inline_private(repo, fi, keep, depth))
+
+
+def source_tokens(module_file: str) -> Set[str]:
+    """Identifiers that occur anywhere in a checker's own source: helpers the rules know by name are not inlined."""
+    import re
+
+    with open(module_file) as f:
+        return set(re.findall(r"[A-Za-z_][A-Za-z0-9_]*", f.read()))
+
+
+def install_prepared(ck, module_file: str, depth: int = 3):
+    """Make ``ck.func`` return the prepared (helpers inlined, aliases/table loops normalised) form of every anchored
+    function.  Helpers whose name occurs in the checker's own source are known to its rules and stay calls."""
+    keep = source_tokens(module_file)
+    orig = ck.func
+    cache: Dict[Tuple[str, str], FuncInfo] = {}
+
+    def func(relpath: str, qualname: str) -> FuncInfo:
+        k = (relpath, qualname)
+        if k not in cache:
+            cache[k] = prepared(ck.repo, orig(relpath, qualname), keep, depth)
+        return cache[k]
+
+    ck.func = func
+    ck.prepare = lambda fi: prepared(ck.repo, fi, keep, depth)
+    return keep
